@@ -15,7 +15,7 @@ H  instrumented inputs: the real RedfieldRateMatrix is run on a stub
    logged frequencies and the resulting matrix must be the specified ones.
    Sampled numeric clauses on random aggregates: signs, column sums, ground
    state isolation, detailed balance (Redfield exact, Foerster within the
-   quadrature error, relative to E_n - lambda_n), golden-rule value of the
+   step-halving estimate of the quadrature error, relative to E_n - lambda_n), golden-rule value of the
    downhill rates from the rate matrix and from the tensor, oddness of
    spectral densities and C(-w) = exp(-w/kT) C(w), also when one spectral
    density object is evaluated at several temperatures.
@@ -153,20 +153,32 @@ def main():
         en = 12000.0 + rng.uniform(-200, 200, size=Nm)
         dtb = 1.0
         Ntb = 3000
-        ta = qr.TimeAxis(0.0, Ntb, dtb)
-        with qr.energy_units("1/cm"):
-            mols = []
-            for i in range(Nm):
-                m = qr.Molecule([0.0, float(en[i])])
-                m.set_transition_environment((0, 1), qr.CorrelationFunction(
-                    ta, dict(ftype="OverdampedBrownian", reorg=float(reorg[i]),
-                             cortime=float(cort[i]), T=Temp2, matsubara=100)))
-                mols.append(m)
-            ag = qr.Aggregate(mols)
-            for i in range(Nm):
-                for j in range(i + 1, Nm):
-                    ag.set_resonance_coupling(i, j, float(rng.uniform(-90, 90)))
-        ag.build()
+        Jcm = {(i, j): float(rng.uniform(-90, 90))
+               for i in range(Nm) for j in range(i + 1, Nm)}
+
+        def build_ag(nt, dt):
+            tax = qr.TimeAxis(0.0, nt, dt)
+            with qr.energy_units("1/cm"):
+                mols = []
+                for i in range(Nm):
+                    m = qr.Molecule([0.0, float(en[i])])
+                    m.set_transition_environment(
+                        (0, 1), qr.CorrelationFunction(tax, dict(
+                            ftype="OverdampedBrownian", reorg=float(reorg[i]),
+                            cortime=float(cort[i]), T=Temp2, matsubara=100)))
+                    mols.append(m)
+                agx = qr.Aggregate(mols)
+                for (i, j), v in Jcm.items():
+                    agx.set_resonance_coupling(i, j, v)
+            agx.build()
+            return agx, tax
+        ag, ta = build_ag(Ntb, dtb)
+        # the same system with the bath sampled twice as finely: the
+        # difference estimates the discretisation error of the library's
+        # Fourier-transformed correlation function (2-3 % at 400 1/cm for a
+        # 1 fs step), which is what limits the comparison with the analytic
+        # spectral density
+        ag_f, ta_f = build_ag(2 * Ntb, dtb / 2)
         ham = ag.get_Hamiltonian()
         sbi = ag.get_SystemBathInteraction()
         rp = dict(kind="aggregate", seed=ck.seed, system=s, N=Nm, T=Temp2)
@@ -202,7 +214,15 @@ def main():
                 ta, relaxation_theory="standard_Redfield")
             with qr.eigenbasis_of(ham):
                 Rt = numpy.array(RT.data)
-            worst_m, worst_t = 0.0, 0.0
+            K_f = numpy.array(RedfieldRateMatrix(
+                ag_f.get_Hamiltonian(),
+                ag_f.get_SystemBathInteraction()).data)
+            RT_f, HH_f = ag_f.get_RelaxationTensor(
+                ta_f, relaxation_theory="standard_Redfield")
+            with qr.eigenbasis_of(ag_f.get_Hamiltonian()):
+                Rt_f = numpy.array(RT_f.data)
+            worst_m, worst_t = 0.0, 0.0     # error / tolerance
+            raw_m = raw_t = 0.0
             for a in range(1, n):
                 for b in range(1, n):
                     if hD[b] - hD[a] > 2e-3:        # a <- b downhill
@@ -214,17 +234,27 @@ def main():
                                     * (1.0 + 1.0 / math.tanh(
                                         w / (2 * kB_int * Temp2)))
                                     * Jw(w, lam, cort[site]))
-                        worst_m = max(worst_m, abs(K[a, b] - val) / val)
-                        worst_t = max(worst_t, abs(numpy.real(
-                            Rt[a, a, b, b]) - val) / val)
-            ck.case("golden-rule", s, sample=dict(rp, matrix_err=worst_m,
-                                                  tensor_err=worst_t))
-            if worst_m > 2e-2:
+                        # tolerance: 3 x the step-halving estimate (the
+                        # error falls by ~3 when the step is halved, so the
+                        # estimate is ~2/3 of the error) + 2e-3
+                        em = abs(K[a, b] - val) / val
+                        tm = 3.0 * abs(K[a, b] - K_f[a, b]) / val + 2e-3
+                        rt = numpy.real(Rt[a, a, b, b])
+                        et = abs(rt - val) / val
+                        tt = 3.0 * abs(rt - numpy.real(
+                            Rt_f[a, a, b, b])) / val + 2e-3
+                        worst_m = max(worst_m, em / tm)
+                        worst_t = max(worst_t, et / tt)
+                        raw_m, raw_t = max(raw_m, em), max(raw_t, et)
+            ck.case("golden-rule", s, sample=dict(
+                rp, matrix_err=raw_m, tensor_err=raw_t,
+                matrix_err_over_tol=worst_m, tensor_err_over_tol=worst_t))
+            if worst_m > 1.0:
                 ck.violation("golden-rule", "rate-matrix",
-                             dict(rp, err=worst_m), rp)
-            if worst_t > 2e-2:
-                ck.violation("golden-rule", "tensor", dict(rp, err=worst_t),
-                             rp)
+                             dict(rp, err=raw_m, err_over_tol=worst_m), rp)
+            if worst_t > 1.0:
+                ck.violation("golden-rule", "tensor",
+                             dict(rp, err=raw_t, err_over_tol=worst_t), rp)
         # Foerster rates
         with ck.guarded("foerster-rates", "aggregate", rp, rp):
             KF = numpy.array(FoersterRateMatrix(ham, sbi).data)
@@ -233,7 +263,13 @@ def main():
             if cs > 1e-12 * max(1.0, numpy.abs(KF).max()):
                 ck.violation("column-sums", "foerster", dict(rp, err=cs), rp)
             Hs = numpy.array(ham._data)
-            worst = 0.0
+            # quadrature error of the overlap integrals: the same rates with
+            # the bath sampled twice as finely (the small uphill rate carries
+            # the larger relative error)
+            KF_f = numpy.array(FoersterRateMatrix(
+                ag_f.get_Hamiltonian(),
+                ag_f.get_SystemBathInteraction()).data)
+            worst, raw = 0.0, 0.0
             for a in range(1, Nm + 1):
                 for b in range(1, Nm + 1):
                     if a < b and KF[a, b] > 1e-12 and KF[b, a] > 1e-12:
@@ -241,12 +277,17 @@ def main():
                         eb = Hs[b, b] - reorg[b - 1] * R.CM2INT
                         ratio = KF[a, b] / KF[b, a]
                         want = math.exp(-(ea - eb) / (kB_intK * Temp2))
-                        worst = max(worst, abs(ratio - want) / want)
-            ck.case("foerster-detailed-balance", s, sample=dict(rp,
-                                                                err=worst))
-            if worst > 5e-2:
+                        e = abs(ratio - want) / want
+                        tol = 3.0 * (abs(KF[a, b] - KF_f[a, b]) / KF[a, b] +
+                                     abs(KF[b, a] - KF_f[b, a]) / KF[b, a]
+                                     ) + 2e-3
+                        worst = max(worst, e / tol)
+                        raw = max(raw, e)
+            ck.case("foerster-detailed-balance", s, sample=dict(
+                rp, err=raw, err_over_tol=worst))
+            if worst > 1.0:
                 ck.violation("detailed-balance", "foerster",
-                             dict(rp, err=worst), rp)
+                             dict(rp, err=raw, err_over_tol=worst), rp)
 
     # ------------------------------------------ spectral densities and C(w)
     for s in range(8 if ck.thorough else 3):
